@@ -351,6 +351,7 @@ namespace c20 {
                 if ( s.kind != v->kind ) continue;
                 v->run( s, out );
                 std::cout << out.str(); out.str( "" );
+                std::cout.flush();      // a watchdog kill must not lose the sequences already finished
             }
         }
         std::cout.flush();
